@@ -333,6 +333,14 @@ def run(facts, rep, tier, ctx):
     c09.resolver_rules(facts, rep, ws, "R05.5r")
     c07.delegation(facts, rep, ws, "R05.5a", D)
     c07.gate_rules(facts, _P5(rep, "R05.5a"), ws, D)
+    # "a file iff it can be read": the overlay opens what its resolver found (the entry metadata/read_dir describe), not the
+    # first layer that happens to hold a file of that name
+    from . import c04 as _c04
+    _c04.overlay_read_delegation(facts, _P5(rep, "R05.5o"), ws)
+    # what copy_dir / move_dir create goes through the path type's own create_dir / copy_file (parent is a directory): a tree
+    # built below a file exists but no listing shows it
+    from ..pathrules import PathRules as _PRules
+    _PRules(facts, ws, D).generic_routes(_P5(rep, "R05.5g"), "G")
     # R05.6
     from ..report import Report
     scratch = Report("x")
@@ -377,6 +385,8 @@ def run(facts, rep, tier, ctx):
         k += c09.resolver_rules(facts, A, wa, "R05.5r")
         k += c07.delegation(facts, A, wa, "R05.5a", D)
         c07.gate_rules(facts, _P5(A, "R05.5a"), wa, D)
+        _c04.overlay_read_delegation(facts, _P5(A, "R05.5o"), wa)
+        _PRules(facts, wa, D).generic_routes(_P5(A, "R05.5g"), "G")
         k += physrules.table_o_shape(facts, A, "R05.6p", wa)
         scratch = Report("xa")
         c01.table_m(facts, scratch, "M", "Mk", self_ty=wa.memory, trait="AsyncFileSystem",
